@@ -1035,9 +1035,23 @@ func visitedSetInLoop(fn *ssa.Function) bool {
 func ruleDepthBalance(c *eng.Ctx) {
 	const R = "R2.6c-DEPTH-BALANCE"
 	c.Rule(R, "in invokeXObject the nesting counter is incremented once and, on every path from the increment to a return, decremented exactly once (explicitly or by a deferred function)", 1, 0)
-	fn := c.P.Func("text.(*Extractor).invokeXObject")
+	depthBalance(c, R, "text.(*Extractor).invokeXObject", "xobjectDepth", false)
+}
+
+// R6.8 [C06]: the same clause for the nesting counters of the two object parsers
+func ruleParserDepthBalance(c *eng.Ctx) {
+	const R = "R6.8-DEPTH-BALANCE"
+	c.Rule(R, "in the array and dictionary parsers of both object parsers the nesting counter is incremented once and decremented exactly once on every path to a return: a counter that leaks on the normal exit makes every later operand of the stream look more deeply nested, until legal shallow operands are rejected", 4, 0)
+	for _, fn := range []string{"core.(*Parser).parseArray", "core.(*Parser).parseDict", "contentstream.(*Parser).parseArray", "contentstream.(*Parser).parseDict"} {
+		// an error aborts the whole parse, so only the returns that report success are held to the balance
+		depthBalance(c, R, fn, "depth", true)
+	}
+}
+
+func depthBalance(c *eng.Ctx, R, fnName, counter string, successOnly bool) {
+	fn := c.P.Func(fnName)
 	if fn == nil {
-		c.Undec(R, "text.(*Extractor).invokeXObject", token.NoPos, "anchor not found")
+		c.Undec(R, fnName, token.NoPos, "anchor not found")
 		return
 	}
 	delta := func(in ssa.Instruction) int {
@@ -1046,7 +1060,7 @@ func ruleDepthBalance(c *eng.Ctx) {
 			return 0
 		}
 		fr, ok := eng.AsField(st.Addr)
-		if !ok || fr.Field != "xobjectDepth" {
+		if !ok || fr.Field != counter {
 			return 0
 		}
 		b, ok := st.Val.(*ssa.BinOp)
@@ -1080,7 +1094,7 @@ func ruleDepthBalance(c *eng.Ctx) {
 		}
 	}
 	if incBlk == nil {
-		c.Viol(R, "text.(*Extractor).invokeXObject#increment", fn.Pos(), "the nesting counter is never incremented: the depth limit cannot trigger")
+		c.Viol(R, fnName+"#increment", fn.Pos(), "the nesting counter is never incremented: the depth limit cannot trigger")
 		return
 	}
 	// enumerate acyclic paths from the increment to returns
@@ -1113,6 +1127,14 @@ func ruleDepthBalance(c *eng.Ctx) {
 				}
 			}
 			if r, ok := in.(*ssa.Return); ok {
+				if successOnly {
+					vals := eng.ReturnValues(r)
+					if len(vals) > 0 {
+						if nn, known := eng.ErrValueNonNil(vals[len(vals)-1]); !known || nn {
+							return
+						}
+					}
+				}
 				if sum+deferred != 0 {
 					bad = fmt.Sprintf("on the path to the return at %s the counter changes by %+d after the increment", c.P.Pos(r.Pos()), sum+deferred-0)
 				}
@@ -1129,7 +1151,7 @@ func ruleDepthBalance(c *eng.Ctx) {
 		}
 	}
 	dfs(incBlk, incIdx, 0, 0, map[*ssa.BasicBlock]bool{incBlk: true})
-	c.Check(bad == "", R, "text.(*Extractor).invokeXObject#balance", fn.Pos(), "increment and decrement are balanced on every path", "the XObject nesting counter is not restored exactly once: "+bad+" (a net decrease lets nested forms recurse past the limit and overflow the stack)")
+	c.Check(bad == "", R, fnName+"#balance", fn.Pos(), "increment and decrement are balanced on every path", "the nesting counter is not restored exactly once: "+bad+" (a net decrease lets nesting recurse past the limit and overflow the stack; a net increase makes later shallow input look too deep)")
 }
 
 // formatTableKeys: v is a load of a package-level map variable that only the package initialiser assigns (a map
